@@ -254,6 +254,15 @@ def step (st : St) (w : List String) : St × String :=
       ({ st with prot := st' }, (if ok then "ok " else "refused ") ++ showProt st')
     | none => (st, "bad-op")
   | ["phswap"] => (st, showProt st.prot)
+  | ["svz", v1, v2, z1, z2] =>
+    match unhexS v1, unhexS v2, z1.toInt?, z2.toInt? with
+    | some v1, some v2, some z1, some z2 =>
+      (st, "ok " ++ hexS (getView (setView (setView [] v1) v2)) ++ " " ++ toString (getZoom (setZoom (setZoom 0 z1) z2)))
+    | _, _, _, _ => (st, "bad-op")
+  | ["fpn", a, b] =>
+    match a.toNat?, b.toNat? with
+    | some a, some b => (st, "ok " ++ toString (getFirstPage (setFirstPage (setFirstPage none a) b)))
+    | _, _ => (st, "bad-op")
   | ["cfnew"] => ({ st with cf := [] }, "ok")
   | ["cfset", sheet, r, n, _] =>
     match unhexS r, n.toNat? with
